@@ -13,9 +13,5 @@ CONSTANTS
   UseSync = FALSE
   Closer = TRUE
   Defects <- Bug_closeReread
-INVARIANT HistoryOK
-INVARIANT QuietOK
-INVARIANT ReconnectOK
-INVARIANT NoThreadDies
-INVARIANT TypeOK
+INVARIANT CloseCallsOK
 CHECK_DEADLOCK FALSE
